@@ -438,8 +438,13 @@ def judge_xml(sess, xml, made_up=()):
             reached = reached_intent(sess, serialise(root, [e for e in an.attrs if e not in an.remove]), "Error")
             if reached is None:
                 out.notes.append("reach_unknown")
-            elif reached == "err":
+            elif reached == "err" and not _only_property_values_above(root, an):
                 out.notes.append("illegal_attribute_hidden_by_another_attribute")
+            elif reached == "err":
+                # the only other attributes above the illegal one are property-only values (':literal', ':prefix', ...): they name no concept
+                # and reference nothing, so the content below them is still read and the illegal value must be reported
+                bad("illegal-accepted", "Error: get_spoken_text returned Ok although the value is illegal (%s) and the intent attributes above it "
+                                        "are properties only" % ", ".join(sorted(set(an.eff[e][1] for e in an.remove))), "below-property-only")
             elif not reached:
                 out.notes.append("illegal_attribute_never_looked_at")
             else:
@@ -464,6 +469,25 @@ def judge_xml(sess, xml, made_up=()):
         if an.cls == G.LEGAL:
             positive(out, an, made_up, I1, E1, REF, sess, xml_with, bad)
     return out
+
+
+_PROPS_ONLY = re.compile(r"^\s*(:[A-Za-z_][A-Za-z0-9_.\-]*)+\s*$")
+
+
+def _only_property_values_above(root, an):
+    """every intent attribute on an ancestor of an illegal attribute's element is a property-only value, and no other attribute can
+    hide the illegal ones (attributes that are not ancestors do not stand between the root and the illegal element)"""
+    parent = {c: p for p in root.iter() for c in p}
+    for e in an.remove:
+        q = parent.get(e)
+        while q is not None:
+            v = q.get("intent")
+            if v is not None and q not in an.remove and not _PROPS_ONLY.match(v):
+                return False
+            if q.get("arg") is not None and v is None:
+                pass
+            q = parent.get(q)
+    return True
 
 
 def clear_cut(an, e, made_up):
@@ -936,6 +960,13 @@ def illegal_value(vg, rng, max_depth):
 
 def sc_single(tree, rng, max_depth):
     hp = pick_host(tree, rng)
+    if rng.random() < 0.1:
+        # an operator character written as an identifier (<mi>-</mi>, <mi>|</mi>: converters do that): the clean-up re-tags such a token by
+        # its text, and an attribute that is to be ignored must not change that
+        ops = [p for n, p in tree.walk() if p and n.kids is None and n.tag == "mo" and (n.text or "") in ("-", "+", "|", "(", ")", "=", "<", "−", "!", ",")]
+        if ops:
+            hp = rng.choice(ops)
+            node_at(tree, hp).tag = "mi"
     if hp is None:
         return None
     host = node_at(tree, hp)
@@ -966,8 +997,8 @@ def descendants_hosts(tree, hp, containers_only=False):
 def sc_nested(tree, rng, max_depth):
     """several intent attributes: references to an element with an illegal value, illegal below illegal, disjoint illegal ones,
     illegal below a property-only value, references that only resolve by descending past an arg/intent element"""
-    kind = rng.choice(["ref-to-illegal", "ref-to-illegal", "illegal-below-illegal", "disjoint", "below-property", "out-of-scope", "out-of-scope", "shadowed",
-                       "ref-to-legal"])
+    kind = rng.choice(["ref-to-illegal", "ref-to-illegal", "illegal-below-illegal", "disjoint", "below-property", "below-property", "out-of-scope", "out-of-scope",
+                       "shadowed", "ref-to-legal", "legal-below-property"])
     ap = pick_host(tree, rng, "container")
     if ap is None:
         return None
@@ -1009,8 +1040,22 @@ def sc_nested(tree, rng, max_depth):
             args = label_args(tree, p, rng, kmax=2) if n.kids is not None else {}
             n.attrs["intent"] = illegal_value(ValueGen(rng, list(args)), rng, 20)[0]
         return tree, list(MADE_UP), "nested:" + kind
+    if kind == "legal-below-property":
+        # a clear-cut name(args) value below a property-only value: the properties say how the outer element is read, the inner concept
+        # and its arguments must still be spoken
+        inner_c = [q for q in inner if node_at(tree, q).kids]
+        if not inner_c:
+            return None
+        hp = rng.choice(inner_c)
+        args = label_args(tree, hp, rng, prefer_literals=0.8)
+        if not args:
+            return None
+        val, name = ValueGen(rng, list(args)).clear_cut()
+        node_at(tree, hp).attrs["intent"] = val
+        A.attrs["intent"] = rng.choice([":zib", ":foo-bar:int", ":literal", ":literal", " :zib "])
+        return tree, [name], "nested:" + kind
     if kind == "below-property":
-        A.attrs["intent"] = rng.choice([":zib", ":foo-bar:int", ":silent", ":prefix", ":literal", " :zib "])
+        A.attrs["intent"] = rng.choice([":zib", ":foo-bar:int", ":silent", ":prefix", ":literal", ":literal", ":blank", " :zib "])
         args = label_args(tree, hp, rng, kmax=2) if H.kids is not None else {}
         H.attrs["intent"] = illegal_value(ValueGen(rng, list(args)), rng, 20)[0]
         return tree, list(MADE_UP), "nested:" + kind
